@@ -112,6 +112,8 @@ func indep(v any) string {
 		return x.name
 	case *strNode:
 		return x.name
+	case **strNode:
+		return (**x).name
 	case *pstr:
 		return x.s
 	case both:
@@ -191,7 +193,7 @@ func kindGroup(v any) string {
 		return "float"
 	case []byte:
 		return "bytes"
-	case strNode, *strNode, *pstr, both, *both:
+	case strNode, *strNode, **strNode, *pstr, both, *both:
 		return "stringer"
 	case *perr, **both, verr, *verr:
 		return "error"
@@ -230,6 +232,7 @@ var kindClusters = func() map[string][]any {
 	f01, f02 := 0.1, 0.2 // summed at run time: 0.30000000000000004
 	bv := both{"x"}
 	bp := &bv
+	sp := &strNode{"str-pp"}
 	return map[string][]any{
 		// differ only beyond float32 precision (JSON-decoded ids), plus same-member variants
 		"f64-beyond-f32": {float64(20230000), float64(20230001), float64(20230002), float64(20230003), float64(20230004),
@@ -250,7 +253,7 @@ var kindClusters = func() map[string][]any {
 		"bytes-text": {[]byte("node-b"), "node-b", []byte{0xff, 0xfe, 'x'}, "[110 111 100 101 45 98]", []byte(""), "", myB("node-b"), myB{1, 2},
 			"[1 2]", []byte{1, 2}, ptr([]byte("node-b2")), "node-b2", myS("named-s"), "named-s", myS("node-b"), []byte("node-b1"), []byte("node-b10")},
 		"err-stringer": {errors.New("node-e"), "node-e", "{node-e}", &perr{"node-pe"}, "node-pe", verr{"node-ve"}, &verr{"node-ve"}, "node-ve", verr{"str-1"}, bv, bp, &bp, "S:x", "E:x", both{"y"}, "S:y",
-			strNode{"str-1"}, &strNode{"str-1"}, &pstr{"pstr-1"}, "pstr-1", strNode{"str-10"}, &pstr{"str-10"}, errors.New("str-1"), strNode{""}, errors.New("E:y")},
+			strNode{"str-1"}, &strNode{"str-1"}, &sp, "str-pp", &pstr{"pstr-1"}, "pstr-1", strNode{"str-10"}, &pstr{"str-10"}, errors.New("str-1"), strNode{""}, errors.New("E:y")},
 		"ptr-named-struct": {ip, &ip, 5, myID(5), myID(6), "6", ptr("sp"), "sp", (*int)(nil), "<nil>", plain{"a", 1}, &plain{"a", 1},
 			plain{"a", 2}, "{a 1}", plain{"", 0}, "{ 0}", myF(5), myF(0.5), float64(0.5), myU(5), myU(6), ptr(int64(7)), 7, ptr(float64(7.5)), float32(7.5)},
 	}
